@@ -6,5 +6,5 @@ CONSTANTS
   MaxClock = 6
 CONSTRAINT Bound
 INVARIANT TypeInv CapacityInv CallbackExactlyOnce NeverCallbackForRetrievable OneShardPerKey OrderIsRecency VictimIsOldest
-PROPERTY EvictOnlyWhenFull GetReturnsLastPut
+PROPERTY EvictOnlyWhenFull GetReturnsLastPut Stutters
 CHECK_DEADLOCK FALSE
